@@ -17,7 +17,7 @@ Fixpoint io (t : ntree) : list nat :=
   | NPre i _ _ a => i :: io a
   | NSuf i _ _ a => io a ++ [i]
   | NBin i _ _ l r => io l ++ i :: io r
-  | NGroup i _ a => i :: io a
+  | NGroup _ i _ a => i :: io a
   end.
 
 Lemma inorder_go_tree ns : forall t p, denotes ns p t ->
@@ -25,7 +25,7 @@ Lemma inorder_go_tree ns : forall t p, denotes ns p t ->
     inorder_go (2 * size t + fuel) ns stack (Some (nid t)) acc
     = inorder_go fuel ns stack None (rev (io t) ++ acc).
 Proof.
-  induction t as [i d k|i d k a IH|i d k a IH|i d k l IHl r IHr|i k a IH]; intros p D fuel stack acc;
+  induction t as [i d k|i d k a IH|i d k a IH|i d k l IHl r IHr|b i k a IH]; intros p D fuel stack acc;
     simpl in D; destruct D as (n & Hn & A); cbn [nid size io].
   - destruct A as (_ & _ & _ & _ & A5 & A6 & _).
     replace (2 * 1 + fuel) with (S (S fuel)) by lia. cbn [inorder_go]. rewrite Hn, A5. cbn [inorder_go].
@@ -50,7 +50,7 @@ Qed.
 
 Lemma io_has t j : In j (io t) <-> has_id t j.
 Proof.
-  induction t as [i d k|i d k a IH|i d k a IH|i d k l IHl r IHr|i k a IH]; simpl.
+  induction t as [i d k|i d k a IH|i d k a IH|i d k l IHl r IHr|b i k a IH]; simpl.
   - split; [intros [H|[]]; auto|intros ->; auto].
   - rewrite <- IH. split; [intros [H|H]; auto|intros [->|H]; auto].
   - rewrite in_app_iff, <- IH. simpl. split; [intros [H|[H|[]]]; auto|intros [->|H]; auto].
@@ -68,7 +68,7 @@ Qed.
 
 Lemma io_increasing t : ordered t -> increasing (io t).
 Proof.
-  induction t as [i d k|i d k a IH|i d k a IH|i d k l IHl r IHr|i k a IH]; simpl.
+  induction t as [i d k|i d k a IH|i d k a IH|i d k l IHl r IHr|bk i k a IH]; simpl.
   - intros _. split; [intros b []|exact I].
   - intros [H1 H2]. split; [|apply IH; exact H2]. intros b Hb. apply io_has in Hb.
     pose proof (ordered_range a b H2 Hb). lia.
